@@ -41,7 +41,9 @@ var c02Corpus = []string{
 // c02TriggerProgram: programs under the narrow triggers of the open known findings.
 func c02TriggerProgram(r *h.RNG, i int) string {
 	x, y := r.Pick([]string{"x", "e", "t", "val"}), r.Pick([]string{"z", "q", "outer"})
-	switch i % 8 {
+	switch i % 9 {
+	case 8: // K-C02-7: block of declarations only, a later initialiser mentions an earlier name
+		return fmt.Sprintf("function f(){{let %s=1;let w=R(1,%s)}}f();", y, y)
 	case 6: // K-C02-6: a name of a parameter initialiser is declared in the body and used from a closure before that
 		return fmt.Sprintf("function f(%s){function j(v=%s){let g=()=>%s;let %s=1;return R(1,g(),v)}return j()}f(5);", y, y, y, y)
 	case 7: // K-C02-6 with a rest parameter: the initialiser is resolved to the body variable
